@@ -206,27 +206,7 @@ def shape(g, ids, form, allow_bare=True):
 
 class Lane(LaneBase):
     PROP = 'C11'
-    THEOREMS = [
-        'CG.C11.isDSeparated_iff_DSep',
-        'CG.C11.isDSeparated_iff_DSepX',
-        'CG.C11.isDSeparated_ok_iff',
-        'CG.C11.isDSeparated_total',
-        'CG.C11.isMinimalSep_iff',
-        'CG.C11.minimalSep_avoids_ends',
-        'CG.C11.isMinimallyDSeparated_iff',
-        'CG.C11.isMinimallyDSeparated_ok_iff',
-        'CG.C11.dsep_symm_iff',
-        'CG.C11.adjacent_not_dsep',
-        'CG.C11.self_not_dsep',
-        'CG.C11.adjacent_not_minimalSep',
-        'CG.C11.getDSeparationSetPre_ok_iff',
-        'CG.C11.getDSeparationSetPre_total',
-        'CG.C11.getpre_reverse_edge_passes',
-        'CG.C11.dsepSets_congr',
-        'CG.C11.dsepSets_singleton',
-        'CG.C11.dsepSets_singleton_disjoint',
-        'CG.C11.dsepSets_swap',
-    ]
+    THEOREMS = 'auto'
     AUDIT = 'CG/Audit/C11.lean'
     RULE = ('a graph is non-trivial when is_d_separated answered both True and False on it; distinct by labelled edge '
             'set (plus the kind of graph for the assertion cases)')
@@ -326,6 +306,12 @@ class Lane(LaneBase):
                 oracle.append(f'is_d_separated({X},{Y},{Z}) depends on the argument form: {r}')
             lines.append(f'dsep is {hn} {he} {hxlist(X)} {hxlist(Y)} {hxlist(Z)}')
             impl.append(r)
+            if case['kind'] == 'dag' and counter[0] % 2 == 0:
+                # the transcription of networkx's own algorithm (CG.NxDSep) against the real networkx.d_separated
+                from harness.lanes.c11_nx import nx_lines
+                ln, exp = nx_lines(names, edges, X, Y, Z)
+                lines.append(ln)
+                impl.append(exp)
             if bf is not None and check:
                 want = b01(bf.dsep_sets(X, Y, Z))
                 answers.add(r)
